@@ -86,6 +86,9 @@ RULES = {
     'C16_retype_coeffs': dict(
         kind='C16', pattern='constraint_coefficients: &[Felt],', replace='constraint_coefficients: &[crate::coeff::Coeff],',
         why='coefficient-typing contract of property C16', assumes='none (the body must type-check unchanged under the stricter types)'),
+    'C16_retype_oods_values': dict(
+        kind='C16', pattern='oods_values: &[Felt],', replace='oods_values: &[crate::coeff::OodsVal],',
+        why='typing contract of C16 / C01 for the DEEP evaluator: the i-th coefficient weights the opening of the i-th out-of-domain value', assumes='none (the body must type-check unchanged under the stricter types)'),
     'C16_retype_ret_comp': dict(
         kind='C16', pattern='global_values: &GlobalValues, ) -> Felt {', replace='global_values: &GlobalValues, ) -> crate::coeff::Lin {',
         why='coefficient-typing contract of property C16', assumes='none'),
